@@ -552,6 +552,13 @@ func c03CatPair(thorough bool) *c03Cat {
 		cat.add("P/"+k+"/wider-left", "join:widths", c3sel(c3star(), nil, c3join(k, wide1, t2, c3eq(c3c("w.a"), c3c("t2.a")))))
 		cat.add("P/"+k+"/narrower-right", "join:widths", c3sel(c3star(), nil, c3join(k, t1, narrow2, c3eq(c3c("t1.a"), c3c("n.a")))))
 	}
+	// a derived table / CTE over a join, named like the table its first column comes from: every column is the derived table's
+	for _, k := range []string{"INNER", "LEFT"} {
+		inner := c3sel(c3f("t1.a", "t1.b", "t2.c"), nil, c3join(k, t1, t2, c3eq(c3c("t1.a"), c3c("t2.a"))))
+		cat.add("P/"+k+"/derived-named-like-its-first-table/star", "nested:derived join", c3sel(c3f("t1.*"), nil, c3sub(inner, "t1")))
+		cat.add("P/"+k+"/derived-named-like-its-first-table/last-column", "nested:derived join", c3sel(c3f("t1.c", "t1.a"), relm.IsNull{E: c3c("t1.c"), Neg: true}, c3sub(inner, "t1")))
+		cat.add("P/"+k+"/cte-named-like-its-first-table/star", "nested:cte join", c3with(c3sel(c3f("t1.*", "t1.c"), nil, c3ref("t1")), &relm.CTE{Name: "t1", Q: inner}))
+	}
 	// names are case-insensitive: qualifiers written in another letter case than the table or its alias
 	cat.add("P/upper-qualifier/star", "names:case", c3sel(c3f("T1.*", "T2.c"), nil, t1, t2))
 	cat.add("P/upper-qualifier/columns", "names:case", c3sel(c3f("T1.A", "t2.C"), c3eq(c3c("T1.a"), c3c("T2.A")), t1, t2))
